@@ -295,6 +295,15 @@ class WorldA:
         except Exception:
             return False
 
+    def _reference_evaluates(self, c: Circ, X: np.ndarray | None) -> bool:
+        try:
+            oracles.evaluate(self._reference(c), X)
+            return True
+        except HarnessError:
+            raise
+        except Exception:
+            return False
+
     def probes_for_sc(self, c: Circ) -> list[np.ndarray | None]:
         key = (c.num_vars, c.domain)
         ps = self._probe_cache.get(key)
@@ -404,7 +413,7 @@ class WorldA:
         self.tr.count(f"derive:{opr}:{via}")
         info = self._compile_circ(c, op)
         if c.alive:
-            c.rel_ok = self._relation_holds(c) is True
+            c.rel_ok = self._relation_holds(c, rel=self.REL_BIRTH, nontrivial=True) is True
             self.tr.count("rel:tracked" if c.rel_ok else "rel:untracked")
         return info
 
@@ -523,12 +532,17 @@ class WorldA:
             self._mutated(c)
             info["mutated"] = [c.name]
         else:
-            # a reset of a derived circuit must leave the operands' tensors untouched
-            for b in c.bases:
-                if self.params_digest(self.circs[b]) != before[b]:
-                    raise Violation(
-                        "I5", f"reset of derived {c.name} changed tensors of operand {b}"
-                    )
+            # On the pinned tree a reset of a derived circuit leaves the operands' tensors
+            # untouched (pointers do not re-initialise what they point to).  C10 does not
+            # promise that, so it is not an invariant: if a tree does re-draw the shared
+            # tensors, that is one more in-place re-initialisation of the operand, and the
+            # model follows it (everything derived must then follow it too: I2 / I3).
+            changed = [b for b in c.bases if self.params_digest(self.circs[b]) != before[b]]
+            for b in changed:
+                self._mutated(self.circs[b])
+                self.tr.count("reset:derived-redrew-operand")
+            if changed:
+                info["mutated"] = changed
         return info
 
     def op_save(self, op: dict[str, Any]) -> dict[str, Any]:
@@ -555,12 +569,17 @@ class WorldA:
         try:
             res = c.cc.load_state_dict(sd, strict=True)
         except Exception as e:
+            if "S1" not in self.checks:
+                # whether a state_dict loads back is C19's subject; for the other properties a
+                # refused load is an update that did not happen
+                self.tr.count(f"load:refused:{type(e).__name__}")
+                return {"status": "refused"}
             raise Violation(
                 "S1",
                 f"load_state_dict(strict=True) of {c.name} failed in incarnation "
                 f"{self.incarnation}: {type(e).__name__}: {str(e)[:200]}",
             )
-        if res.missing_keys or res.unexpected_keys:
+        if (res.missing_keys or res.unexpected_keys) and "S1" in self.checks:
             raise Violation("S1", f"{c.name}: missing {res.missing_keys} unexpected {res.unexpected_keys}")
         for b, v in vers.items():
             bc = self.circs[b]
@@ -577,7 +596,10 @@ class WorldA:
             return {"status": "noop"}
         cc = self.ctx.compile(c.sc)
         if cc is not c.cc:
-            raise Violation("I6", f"recompiling {c.name} returned a different object")
+            # memoisation is C18's subject (R1 there); here the previously compiled object
+            # stays the tracked one and must keep all its invariants
+            self.tr.count("recompile:different-object")
+            return {"status": "different-object", "mutated": list(c.bases)}
         return {"status": "ok"}
 
     def op_eval(self, op: dict[str, Any]) -> dict[str, Any]:
@@ -588,12 +610,25 @@ class WorldA:
             return {"status": "ok", "evaluated": [c]}
         rng = random.Random(op["seed"])
         X = recipes.probe_inputs(rng, c.domain, c.num_vars, int(op.get("batch", 2)))
+        # A new batch (other size, other rows) is a new *input*, not only a later point of the
+        # history: a failure that a fault-free recompilation from the current values shows on
+        # the same batch as well is a function of (circuit, batch) - e.g. polynomial evidence
+        # under folding only evaluates when the batch size equals the number of folds - and
+        # belongs to C02/C06, not to C10.  I4 is raised when only the long-lived circuit fails.
         try:
             a = oracles.evaluate(c.cc, X)
         except Exception as e:
-            raise Violation("I4", f"{c.name} evaluated at birth but now raises {type(e).__name__}: {str(e)[:120]}")
-        ref = self._reference(c)
-        b = oracles.evaluate(ref, X)
+            if self._reference_evaluates(c, X):
+                raise Violation("I4", f"{c.name} evaluated at birth but now raises {type(e).__name__}: {str(e)[:120]} (a recompilation from the current values evaluates) on a batch of {X.shape[0]}")
+            self.tr.count(f"eval:input-excluded:{type(e).__name__}")
+            return {"status": "input-excluded"}
+        try:
+            b = oracles.evaluate(self._reference(c), X)
+        except HarnessError:
+            raise
+        except Exception as e:
+            self.tr.count(f"eval:reference-failed:{type(e).__name__}")
+            return {"status": "reference-failed"}
         self._cmp("I2", c, a, b, f"eval batch={X.shape[0]}")
         # each row depends only on its own input row: compare with row-by-row evaluation
         return {"status": "ok", "evaluated": [c]}
@@ -712,14 +747,27 @@ class WorldA:
             try:
                 outs = self.eval_all(c)
             except Exception as e:
-                raise Violation(
-                    "I4",
-                    f"{c.name} ({self._describe(c)}) evaluated at birth but raises "
-                    f"{type(e).__name__}: {str(e)[:120]} {where}",
-                )
-            ref = self._reference(c)
-            for X, a in zip(self.probes_for(c), outs):
-                b = oracles.evaluate(ref, X)
+                # same probe batches as at birth: only the history differs.  Still differential
+                # (a recompilation from the current values must evaluate them), so that a
+                # value-dependent failure of a layer is not reported as a sharing defect.
+                if all(self._reference_evaluates(c, X) for X in self.probes_for(c)):
+                    raise Violation(
+                        "I4",
+                        f"{c.name} ({self._describe(c)}) evaluated at birth but raises "
+                        f"{type(e).__name__}: {str(e)[:120]} {where}",
+                    )
+                self.tr.count(f"fresh:value-excluded:{type(e).__name__}")
+                continue
+            try:
+                ref = self._reference(c)
+                refs = [oracles.evaluate(ref, X) for X in self.probes_for(c)]
+            except HarnessError:
+                raise
+            except Exception as e:
+                # the reference model itself cannot be built for the current values: no verdict
+                self.tr.count(f"fresh:reference-failed:{type(e).__name__}")
+                continue
+            for a, b in zip(outs, refs):
                 self._cmp("I2", c, a, b, where)
             if "plain" in self.checks and c.kind == "derived":
                 try:
@@ -773,14 +821,28 @@ class WorldA:
             return t.to(torch.complex128)
         return torch.exp(t.to(torch.complex128))
 
-    def _relation_holds(self, c: Circ) -> bool | None:
+    # Tolerances of I3 (all *relative* to the magnitude of the operand's own terms; an
+    # absolute floor would make the relation hold vacuously on tiny outputs, e.g. products of
+    # Gaussian densities around 1e-26, and "held at birth" would then mean nothing):
+    REL_BIRTH = 1e-9   # the relation is tracked only if it holds this tightly at birth ...
+    REL_LATER = 1e-5   # ... and is violated only if it is off by more than this afterwards
+    REL_REF = 1e-6     # ... while a recompilation from the current values satisfies it this well
+    TINY = 1e-200      # magnitudes below this are "zero": not a meaningful relative comparison
+
+    def _relation_holds(self, c: Circ, *, rel: float, cc: Any = None,
+                        nontrivial: bool = False) -> bool | None:
         """True/False: relation evaluated and (not) satisfied; None: not evaluable."""
         try:
-            return self._relation(c)
+            self._rel_tol = rel
+            self._rel_nontrivial = nontrivial
+            return self._relation(c, c.cc if cc is None else cc)
         except HarnessError:
             raise
         except Exception:
             return None
+
+    _rel_tol = 1e-6
+    _rel_nontrivial = False
 
     def _close(self, a: torch.Tensor, b: torch.Tensor, scale: torch.Tensor | float) -> bool | None:
         if a.shape != b.shape:
@@ -790,10 +852,12 @@ class WorldA:
         if not (fa and fb):
             return None
         sc = scale if isinstance(scale, torch.Tensor) else torch.tensor(float(scale))
-        tol = 1e-6 * sc + 1e-12
+        if self._rel_nontrivial and not bool((sc > self.TINY).all()):
+            return None  # birth: a vacuous comparison does not establish the relation
+        tol = self._rel_tol * sc + self.TINY
         return bool(((a - b).abs() <= tol).all())
 
-    def _relation(self, c: Circ) -> bool | None:
+    def _relation(self, c: Circ, dcc: Any) -> bool | None:
         spec = c.spec
         if spec is None:
             return None
@@ -825,11 +889,11 @@ class WorldA:
             y = y.reshape(X.shape[0], zs.shape[0], *y.shape[1:])
             tot = y.sum(dim=1)
             scale = y.abs().sum(dim=1)
-            if len(c.cc.scope) == 0:
-                d = self._lin(oracles.evaluate(c.cc, None))  # (O, K)
+            if len(dcc.scope) == 0:
+                d = self._lin(oracles.evaluate(dcc, None))  # (O, K)
                 d = d.unsqueeze(0).expand_as(tot)
             else:
-                d = self._lin(oracles.evaluate(c.cc, X))
+                d = self._lin(oracles.evaluate(dcc, X))
             return self._close(d, tot, scale)
         X = Xs[0]
         if opr == "multiply":
@@ -842,11 +906,11 @@ class WorldA:
             B, O1, K1 = a.shape
             _, O2, K2 = b.shape
             prod = (a[:, :, None, :, None] * b[:, None, :, None, :]).reshape(B, O1 * O2, K1 * K2)
-            d = self._lin(oracles.evaluate(c.cc, X))
+            d = self._lin(oracles.evaluate(dcc, X))
             return self._close(d, prod, prod.abs())
         if opr == "conjugate":
             a = self._lin(oracles.evaluate(s0.cc, X))
-            d = self._lin(oracles.evaluate(c.cc, X))
+            d = self._lin(oracles.evaluate(dcc, X))
             return self._close(d, a.conj().resolve_conj(), a.abs())
         if opr == "evidence":
             if X is None:
@@ -856,15 +920,15 @@ class WorldA:
             for v, val in obs.items():
                 R[:, v] = val
             a = self._lin(oracles.evaluate(s0.cc, R))
-            if len(c.cc.scope) == 0:
-                d = self._lin(oracles.evaluate(c.cc, None)).unsqueeze(0).expand_as(a)
+            if len(dcc.scope) == 0:
+                d = self._lin(oracles.evaluate(dcc, None)).unsqueeze(0).expand_as(a)
             else:
-                d = self._lin(oracles.evaluate(c.cc, X))
+                d = self._lin(oracles.evaluate(dcc, X))
             return self._close(d, a, a.abs())
         if opr == "concatenate":
             outs = [self._lin(oracles.evaluate(s.cc, X)) for s in srcs]  # type: ignore[union-attr]
             a = torch.cat(outs, dim=0 if X is None else 1)
-            d = self._lin(oracles.evaluate(c.cc, X))
+            d = self._lin(oracles.evaluate(dcc, X))
             return self._close(d, a, a.abs())
         return None
 
@@ -874,12 +938,27 @@ class WorldA:
         for c in circs:
             if c.kind != "derived" or not c.rel_ok:
                 continue
-            r = self._relation_holds(c)
+            r = self._relation_holds(c, rel=self.REL_LATER)
             if r is None:
                 self.tr.count("rel:undefined")
                 continue
             self.tr.count("cmp:I3")
             if r is False:
+                # C10 is about *sharing*: "still satisfies its defining relation without
+                # recompilation".  If a recompilation of the derived circuit from the current
+                # parameter values does not satisfy the relation either, the operator itself
+                # is wrong for these values (C03-C07, not claimed): stop tracking, no alarm.
+                try:
+                    rr = self._relation_holds(c, rel=self.REL_REF, cc=self._reference(c))
+                except HarnessError:
+                    raise
+                except Exception:
+                    rr = None
+                if rr is not True:
+                    self.tr.count("rel:operator-not-sharing")
+                    self.tr.ev("rel-untracked", c.name, self._describe(c), rr)
+                    c.rel_ok = False
+                    continue
                 raise Violation(
                     "I3",
                     f"{c.name} ({self._describe(c)}) satisfied its defining relation at birth "
